@@ -257,9 +257,11 @@ func route(c CaseC16, call Call16, callID string) (map[string][]string, string) 
 	exp := map[string][]string{}
 	for _, o := range call.Opts {
 		if o.Kind == "cb" {
-			if o.Path != nil {
-				if _, ec := find(c.Nodes, o.Path); ec != "" {
-					return nil, ec
+			for _, pth := range [][]string{o.Path, o.Path2} {
+				if pth != nil {
+					if _, ec := find(c.Nodes, pth); ec != "" {
+						return nil, ec
+					}
 				}
 			}
 			continue
@@ -473,18 +475,35 @@ func checkC16(c CaseC16) (*vkit.Failure, vkit.Meta) {
 				if op.Kind != "cb" || op.Path == nil {
 					continue
 				}
-				target := strings.Join(op.Path, "/")
-				seen := o.rec.cb[fmt.Sprintf("%s#%d", callID, oi)]
-				hit := false
-				for _, name := range seen {
-					if name == target {
-						hit = true
-					} else if !strings.HasPrefix(name, target+"/") && name != "" {
-						return &vkit.Failure{Kind: "designated-callback-leaked", Sig: "designated-callback-leaked", Msg: fmt.Sprintf("call %d: a callback designated to %s was invoked for %s", i, target, name)}
+				var targets []string
+				for _, pth := range [][]string{op.Path, op.Path2} {
+					if pth != nil {
+						targets = append(targets, strings.Join(pth, "/"))
 					}
 				}
-				if !hit {
-					return &vkit.Failure{Kind: "designated-callback-not-invoked", Sig: "designated-callback-not-invoked", Msg: fmt.Sprintf("call %d: a callback designated to %s was never invoked there (saw %v)", i, target, seen)}
+				seen := o.rec.cb[fmt.Sprintf("%s#%d", callID, oi)]
+				hit := map[string]bool{}
+				for _, name := range seen {
+					inside := false
+					for _, target := range targets {
+						if name == target {
+							hit[target] = true
+							inside = true
+						} else if strings.HasPrefix(name, target+"/") || name == "" {
+							inside = true
+						}
+					}
+					if !inside {
+						return &vkit.Failure{Kind: "designated-callback-leaked", Sig: "designated-callback-leaked", Msg: fmt.Sprintf("call %d: a callback designated to %v was invoked for %s", i, targets, name)}
+					}
+				}
+				for _, target := range targets {
+					if !hit[target] {
+						return &vkit.Failure{Kind: "designated-callback-not-invoked", Sig: "designated-callback-not-invoked", Msg: fmt.Sprintf("call %d: a callback designated to %v was never invoked at %s (saw %v)", i, targets, target, seen)}
+					}
+				}
+				if len(targets) >= 2 {
+					m.Labels = append(m.Labels, "callback-designated-to-two-paths")
 				}
 			}
 		}
@@ -551,7 +570,7 @@ func genC16(t *rapid.T) CaseC16 {
 					cands = paths
 				}
 				o.Path = strings.Split(cands[rapid.IntRange(0, len(cands)-1).Draw(t, "target")], "/")
-				if o.Kind != "cb" && len(cands) > 1 && rapid.IntRange(0, 3).Draw(t, "second") == 0 {
+				if len(cands) > 1 && rapid.IntRange(0, 3).Draw(t, "second") == 0 {
 					p2 := cands[rapid.IntRange(0, len(cands)-1).Draw(t, "target2")]
 					// two distinct targets, neither inside the other
 					p1 := strings.Join(o.Path, "/")
